@@ -1076,6 +1076,18 @@ def stage_rigid(ctx):
     finish_corr(ctx, "C11g", exprs, metas)
 
 
+# source tie: the index arithmetic of core/mapping.py:edit_map_indices as written now
+def _src_items():
+    from harness.lib import pyidx
+    return [dict(file="holopy/core/mapping.py", qualname="edit_map_indices", name="edit_idx_src", fn=pyidx.edit_map_indices)]
+
+
+def stage_srctie(ctx):
+    from harness.lib import srctie
+    ok = srctie.run(ctx, "C11", "From Coq Require Import Lia Arith.\nFrom HV Require Import C11.Model C11.Lemmas C11.Props.\n", _src_items())
+    ctx.count("srctie:%s" % ("ok" if ok else "broken"))
+
+
 def run(ctx):
     ctx.rule = ("models = scatterer (Sphere incl. layered / per-channel / complex index, Ellipsoid, Cylinder, Spheroid, Spheres of "
                 "1-4, nested Scatterers, RigidCluster) x theory (Mie, MieLens, AberratedMieLens) x optics (None / number / prior / "
@@ -1118,7 +1130,15 @@ def run(ctx):
                     "the theorems, integer arithmetic in the executed instance",
                     "oracle: python object identity (is) modelled as equality of prior ids; copy.deepcopy modelled as structural copy",
                     "oracle: Spheres.rotated / translated used to state the rigid-cluster clause"]
+    ctx.trusted.append("source reader harness/lib/pyidx.py (python ints read as Z; `x in l`, `l[0]`, `(np.array(l) < x).sum()` read as "
+                       "membership, head and a count; the string prefix / format compared as text) for the source tie")
+    ctx.clauses_proved.append(
+        "source tie: the index arithmetic of core/mapping.py:edit_map_indices, read from the current source text on every run over "
+        "unbounded ints, computes the model's edit_idx for every non-empty duplicate-free index list and every old index (never "
+        "negative); a tied index goes to the smallest tied index and any other to its position after deleting indices[1:], restated "
+        "for the source [edit_idx_src_is_model, edit_tag_src_consistent, src_edit_index_is_position]")
     guarded(ctx, "prove", ctx.prove)
+    guarded(ctx, "source-tie", stage_srctie, ctx)
     boot.boot()
     guarded(ctx, "models", stage_models, ctx)
     guarded(ctx, "ties", stage_ties, ctx)
